@@ -260,7 +260,7 @@ func (en *Engine) builtin(st *State, fr *Frame, x *ssa.Call, name string, args [
 		_ = sig
 		if len(args) == 2 {
 			// append(s, t...) in SSA always has exactly two operands: the second is a slice
-			return mkAppendNorm(args[0], args[1], t)
+			return en.mkAppendNorm(st, args[0], args[1], t)
 		}
 		return mkAppend(args[0], args[1:], false, t)
 	case "copy":
@@ -285,7 +285,20 @@ func (en *Engine) builtin(st *State, fr *Frame, x *ssa.Call, name string, args [
 
 // mkAppendNorm: SSA lowers append(s, a, b) to append(s, slice-of-new-array...). Recover the element list
 // when the spread operand is a slice literal over a fresh array.
-func mkAppendNorm(s, spread Val, t types.Type) Val {
+func (en *Engine) mkAppendNorm(st *State, s, spread Val, t types.Type) Val {
+	if sl, ok := spread.(*SliceV); ok && sl.Lo == nil && sl.Hi == nil {
+		if a, ok := sl.X.(*AllocV); ok {
+			if p, ok := a.Type().Underlying().(*types.Pointer); ok {
+				if arr, ok := p.Elem().Underlying().(*types.Array); ok && arr.Len() <= 16 {
+					elems := make([]Val, arr.Len())
+					for i := range elems {
+						elems[i] = en.load(st, mkIndexAddr(a, intV(int64(i)), arr.Elem()), arr.Elem())
+					}
+					return mkAppend(s, elems, false, t)
+				}
+			}
+		}
+	}
 	return mkAppend(s, []Val{spread}, true, t)
 }
 
@@ -318,7 +331,7 @@ func (en *Engine) modulePure(fn *ssa.Function) bool {
 	return modulePureRec(en.P, fn, map[*ssa.Function]bool{})
 }
 
-var pureCache = map[*ssa.Function]bool{}
+var pureCache = map[any]bool{}
 
 func modulePureRec(p *Prog, fn *ssa.Function, seen map[*ssa.Function]bool) bool {
 	if v, ok := pureCache[fn]; ok {
@@ -361,7 +374,7 @@ func modulePureRec(p *Prog, fn *ssa.Function, seen map[*ssa.Function]bool) bool 
 				if c.IsInvoke() {
 					name := "(" + types.TypeString(c.Value.Type(), nil) + ")." + c.Method.Name()
 					ct := lookupContract(name)
-					if ct == nil || len(ct.Writes) > 0 || ct.TreeMutator {
+					if ct == nil || len(ct.Writes) > 0 {
 						pure = false
 					}
 					continue
